@@ -19,11 +19,11 @@ CHECKS = {
    note="Strict reading demands (documented characters, <=10 segments, convertible captures); precedence among wildcards unspecified. " + TB),
  "C16": dict(engine="Grammar", level="model_checking", design="3.1, 6/C16",
    technique="TLA+ grammar spec (Grammar.tla: declarative derivability + recursive-descent lexer model) checked by TLC; TLC-enumerated lexeme sequences, grammar-derived templates with all single-edit mutants and rule-level cases registered on real muxes; trace validated by TLC against RegTrace.tla and RouterTrace.tla",
-   text="TLC checks for every lexeme sequence up to a length bound that the lexer design accepts exactly the documented grammar; every generated template / mutant / rule case / name shape is registered on a fresh real Mux (empty or with a base service) under recover(), and TLC classifies each from the grammar (must-accept / must-reject / unspecified) and judges the observed outcome: valid accepted and then routed, invalid rejected with an error, no panic, base routes behave identically before and after.",
+   text="TLC checks for every lexeme sequence up to a length bound that the lexer design accepts exactly the documented grammar; every generated template / mutant / rule case / name shape is registered on a fresh real Mux (empty or with a base service) under recover(), and TLC classifies each from the grammar (must-accept / must-reject / unspecified) and judges the observed outcome: valid accepted and then routed, invalid rejected with an error, no panic, base routes behave identically before and after. Field paths through map and repeated fields (mp.value, mp.key, rn.s, r.x) are tried as template variable, body and response_body.",
    note="Unspecified (accept or reject, never crash): nested variables, '**' not last, digit-first words, message-typed variables, duplicate fields, '*'-kind overlaps and re-declared implicit paths. " + TB),
  "C19": dict(engine="Selector", level="model_checking", design="3.2, 6/C19",
    technique="TLA+ Selector spec (Covers vs selector-trie mechanism) checked by TLC; TLC-enumerated selector sets x target methods on real muxes validated against SelectorTrace.tla; config-vs-annotation equivalence as a RouterTrace formula over the Router pipeline; healthz state machine validated against the real grpc health server",
-   text="TLC checks the selector trie design against Covers for all selector sets/names in scope (negative config must fail); every TLC-generated selector set is installed with ServiceConfigOption on real muxes for six target methods (sibling names, nested packages) and TLC judges bound <=> Covers; the same rule declared by config and by annotation must answer every derived request identically; /v1/healthz must report exactly the statuses set on the health server for seeded Set/Check sequences.",
+   text="TLC checks the selector trie design against Covers for all selector sets/names in scope (negative config must fail); every TLC-generated selector set is installed with ServiceConfigOption on real muxes for six target methods (sibling names, nested packages) and TLC judges bound <=> Covers; the same rule declared by config and by annotation must answer every derived request identically; /v1/healthz must report exactly the statuses set on the health server for seeded Set/Check sequences. Every other selector is configured twice with different patterns (each rule judged on its own); healthz is also watched over WebSocket sessions (first frame = current status of the service named in the query).",
    note="Selector sets <=2 (quick) / <=3 (thorough); malformed selectors unspecified; every other selector is configured twice with different patterns; healthz is checked by GET and by Watch over WebSocket sessions. " + TB),
  "C17": dict(engine="Framing", level="model_checking", design="3.5, 6/C17",
    technique="TLA+ Framing spec (property-level Expected per ReadNext call vs read-loop mechanism at one step per r.Read) checked by TLC over every chunk schedule; TLC-generated streams read back through the real stream codecs under every composition of the wire into reads; every call validated by TLC against FramingTrace.tla",
@@ -44,24 +44,24 @@ CHECKS = {
    note="A gzip frame of a tiny message is larger than the message, so gzip cases use limits >= 200. Over-limit replies may be refused or delivered (the property only forbids refusing replies within the limit). " + RPCNOTE),
  "C14": dict(engine="Rpc", level="model_checking", design="3.6, 6/C14",
    technique="TLA+ Rpc spec (header phase, pending/flushed metadata, reserved-key filter); request/response metadata cases incl. -bin values, reserved names and header-phase orders executed on the real Mux; validated by TLC against RpcTrace.tla (MetadataIn, MetadataOutHeader/Trailer, HeaderPhase, ReservedUnforgeable)",
-   text="Request headers (mixed case, multi-valued, -bin in padded and unpadded base64 over byte strings of every length mod 3) must reach the handler lower-cased, in order, byte-exact, with protocol keys absent; SetHeader/SendHeader/SetTrailer in every order relative to the first Send must reach the client on the protocols that carry them (headers: HTTP, gRPC, gRPC-web; trailers: gRPC, gRPC-web), late SetHeader must be refused, and reserved keys set by the handler must not change content-type, status, message or details.",
+   text="Request headers (mixed case, multi-valued, -bin in padded and unpadded base64 over byte strings of every length mod 3) must reach the handler lower-cased, in order, byte-exact, with protocol keys absent; SetHeader/SendHeader/SetTrailer in every order relative to the first Send must reach the client on the protocols that carry them (headers: HTTP, gRPC, gRPC-web; trailers: gRPC, gRPC-web), late SetHeader must be refused, and reserved keys set by the handler must not change content-type, status, message or details. Every protocol-reserved key is set by the handler as header, trailer and both on every protocol, for successful and failing calls; the client-visible metadata is searched for the handler's value in every encoding (NotForged).",
    note=RPCNOTE),
  "C18": dict(engine="Rpc", level="model_checking", design="3.6, 6/C18",
    technique="TLA+ Rpc spec (stats event sequence in Apply); the same RPC executed under every subset of {unary interceptor, stream interceptor, stats handler} on the real Mux; recording interceptors / stats.Handler are the trace source; validated by TLC against RpcTrace.tla (InterceptOnce, StatsWellFormed) plus 2-safety comparison OptionsTransparent",
-   text="Each RPC (every shape, HTTP/gRPC/gRPC-web, message sizes from zero bytes up, ok / error before / error after replies) is run under all 8 option subsets: the matching interceptor must be called exactly once with the full method name, streaming flags and the handler's error; stats events must match tag,in-header,begin,(payloads|out-header)*,out-trailer,end with one payload event per message and End carrying the handler's status; and the client-visible outcome must be identical across the subsets.",
+   text="Each RPC (every shape, HTTP/gRPC/gRPC-web, message sizes from zero bytes up, ok / error before / error after replies) is run under all 8 option subsets: the matching interceptor must be called exactly once with the full method name, streaming flags and the handler's error; stats events must match tag,in-header,begin,(payloads|out-header)*,out-trailer,end with one payload event per message and End carrying the handler's status; and the client-visible outcome must be identical across the subsets. Stats events, the interceptor and the handler are checked for the context TagRPC returned; stream interceptors pass a wrapping stream on and must see every message; the scripts of Proxy.tla are also run through a RegisterConn front with interceptors installed (InterceptProxied).",
    note="InPayload for a message without wire payload on HTTP is unspecified. " + RPCNOTE),
 
  "C03": dict(engine="Transcode", level="model_checking", design="3.4, 6/C03",
    technique="TLA+ Transcode spec (client split over path/query/body, server body-then-parameters application) model-checked by TLC; all 1,024 request shapes TLC enumerates are concretised with seeded fields/values of every kind and executed through the real Mux; validated by TLC against TranscodeTrace.tla (Reassembly, OthersIntact, RejectInvalid)",
-   text="TLC checks for every admissible (rule body selector, path variables, presence pattern) that decoding the body and applying the parameters reproduces the message the client means; each shape is then sent for real with fields of every scalar kind, enum, bytes in all base64 alphabets/paddings, repeated, nested, oneof, wrappers, Timestamp/Duration/FieldMask, boundary and random values, JSON and protobuf bodies, gzip, both query-key spellings, unary and first-stream-message, and the handler-received message must equal the generated one; one invalid text per shape must be rejected.",
+   text="TLC checks for every admissible (rule body selector, path variables, presence pattern) that decoding the body and applying the parameters reproduces the message the client means; each shape is then sent for real with fields of every scalar kind, enum, bytes in all base64 alphabets/paddings, repeated, nested, oneof, wrappers, Timestamp/Duration/FieldMask, boundary and random values, JSON and protobuf bodies, gzip, both query-key spellings, unary and first-stream-message, and the handler-received message must equal the generated one; one invalid text per shape must be rejected. Also varied: empty texts (empty elements of repeated fields, oneof members, wrappers), how the body is delimited (Content-Length, HTTP/2 without length, chunked).",
    note="Structure is decided by the spec; value-level text conversion is judged by identity on the driver's generated message (DESIGN 8). Non-canonical texts are unspecified. " + TB),
  "C04": dict(engine="Transcode", level="model_checking", design="3.4, 6/C04",
    technique="TLA+ negotiation operators (Admitted, AllowedResponseTypes in Transcode.tla); Accept / Accept-Encoding / content-type / reply-kind / response_body cases executed through the real Mux with an independent decode by the response headers; validated by TLC against TranscodeTrace.tla (AcceptAdmits, ResponseDecodable, HttpBodyRaw, ResponseBodySelects, EncodingTruthful)",
-   text="For Accept headers of up to three ranges over registered, wildcard and unregistered types with q in {1,0.5,0}, split over one or two header lines with junk, each request content type, message / empty / 100 kB / HttpBody replies and response_body selectors: the response Content-Type must be admitted by the Accept header when some registered type is (else the request's own), the body decoded with the codec named by that Content-Type must equal the (selected part of the) reply, HttpBody data must arrive raw under its own type, and Content-Encoding must describe the bytes.",
+   text="For Accept headers of up to three ranges over registered, wildcard and unregistered types with q in {1,0.5,0}, split over one or two header lines with junk, each request content type, message / empty / 100 kB / HttpBody replies and response_body selectors: the response Content-Type must be admitted by the Accept header when some registered type is (else the request's own), the body decoded with the codec named by that Content-Type must equal the (selected part of the) reply, HttpBody data must arrive raw under its own type, and Content-Encoding must describe the bytes. Every response case runs on a mux with a user-registered codec (application/x-verif) next to the built-in ones, and with the handler header phase varied (none / SetHeader / SendHeader).",
    note="Permissive Accept reading; response compression is never negotiated by this tree, so EncodingTruthful holds with identity only. " + TB),
  "C07": dict(engine="Transcode", level="model_checking", design="3.4, 6/C07",
    technique="same TLA+ Transcode spec; every shape with a competing value for a path-bound field in the query and/or the body (negative config ParamOrder=query-last must fail); validated by TLC against TranscodeTrace.tla (PathAuthoritative)",
-   text="TLC proves on the model that path captures applied last make path-bound fields authoritative (the query-last variant violates it) and every competing shape is executed for real with fields of every kind, in every query order: the handler must see the path value.",
+   text="TLC proves on the model that path captures applied last make path-bound fields authoritative (the query-last variant violates it) and every competing shape is executed for real with fields of every kind, in every query order: the handler must see the path value. Competitors also name a sub-field of the path-bound field (wrapper .value, Timestamp/Duration .seconds), and the same competition runs over WebSocket sessions where the body is the first text frame.",
    note=TB),
 
  "C11": dict(engine="Registry", level="model_checking", design="3.3, 6/C11",
@@ -70,7 +70,7 @@ CHECKS = {
    note="The random handler pick is sampled (24-40 requests per probe). " + TB),
  "C12": dict(engine="Registry", level="model_checking", design="3.3, 6/C12",
    technique="TLA+ Registry fine-grained model (lock, clone, per-method modify, fail, publish, unlock vs load, match, pick) exhaustively checked by TLC with negative configs (shallow clone, two loads, publish per method); deterministic snapshot-fingerprint monitor over all C11 histories (hook VerifSnapshot/VerifFingerprint); two-writer seeded stress under the race detector with interval trace validation by TLC against RegStressTrace.tla",
-   text="TLC explores every interleaving of two writers and two readers (about 2M states) for PublishedImmutable, AtomicVisibility, NoTornAnswer, FailedRegNoChange; on the code, every history step re-fingerprints the snapshot captured before it (in-place mutation of a published trie or handler map shows on the first history that touches it) and failing registrations must leave the published fingerprint unchanged; two writer goroutines and eight readers then run concurrently with all start/end events numbered by one atomic counter and TLC requires each request's outcome to be allowed by one state published within its interval and already-registered methods to keep being served; the same executions run under -race and any report is a violation.",
+   text="TLC explores every interleaving of two writers and two readers (about 2M states) for PublishedImmutable, AtomicVisibility, NoTornAnswer, FailedRegNoChange; on the code, every history step re-fingerprints the snapshot captured before it (in-place mutation of a published trie or handler map shows on the first history that touches it) and failing registrations must leave the published fingerprint unchanged; two writer goroutines and eight readers then run concurrently with all start/end events numbered by one atomic counter and TLC requires each request's outcome to be allowed by one state published within its interval and already-registered methods to keep being served; the same executions run under -race and any report is a violation. The refusal kind per protocol (NotFound vs Unimplemented) is calibrated from the sequential histories of the same run, and half of the HTTP probes of the stress carry a 20,000-value query that widens the window between route match and handler pick: an answer no single state gives is a violation.",
    note="Data-race freedom is only monitored on the executed schedules (DESIGN 8). " + TB),
  "C20": dict(engine="Mount", level="model_checking", design="3.8, 6/C20",
    technique="TLA+ Mount spec (ServeMux longest-pattern selection, prefix strip) checked by TLC; every mount-pattern set TLC enumerates installed through NewServer and probed on transcoding, Twirp, gRPC and gRPC-web against the bare Mux; validated by TLC against MountTrace.tla (PrefixTransparent, OutsideNotServed, ExtraHandlersKept)",
@@ -79,12 +79,12 @@ CHECKS = {
 
  "C15": dict(engine="Deadline", level="model_checking", design="3.6, 6/C15",
    technique="TLA+ Deadline spec: timeout-string shape classes (WellFormed / Unspecified) and a cancellation state machine whose liveness property CancelReleases TLC checks under weak fairness; TLC-enumerated shapes concretised and sent through the real Mux; cancel / disconnect schedules against gated handlers over loopback sockets (grpc-go client, raw HTTP/1.1); validated by TLC against DeadlineTrace.tla (DeadlineSet, MalformedRefused, CancelReachesContext, CancelReleases)",
-   text="Every timeout shape (0..10 value characters, digits or not, legal / missing / unknown / wrong-case unit, signed) is concretised with seeded and boundary values: a well-formed string must reach the handler with a deadline within 250 ms of receipt + value x unit (64-bit, clamped; computed by the driver in arbitrary precision), anything else must be refused without invoking the handler. For each streaming shape the handler is gated into a known position (busy, blocked in Recv, blocked in Send on a full flow-control window, returned) and the client cancels (grpc-go) or disconnects (plain HTTP, gRPC-web): the handler context must end and the blocked call return an error within 5 s.",
+   text="Every timeout shape (0..10 value characters, digits or not, legal / missing / unknown / wrong-case unit, signed) is concretised with seeded and boundary values: a well-formed string must reach the handler with a deadline within 250 ms of receipt + value x unit (64-bit, clamped; computed by the driver in arbitrary precision), anything else must be refused without invoking the handler. For each streaming shape the handler is gated into a known position (busy, blocked in Recv, blocked in Send on a full flow-control window, returned) and the client cancels (grpc-go) or disconnects (plain HTTP, gRPC-web): the handler context must end and the blocked call return an error within 5 s. Cancel positions include a handler idling on its context after a reply (idleAfterSend); raw HTTP/1.1 clients also send complete bodies chunked with the terminating chunk arriving late (lateend), with the observability rule (what net/http can notice) stated in DeadlineTrace.tla.",
    note="Timing-dependent: a rejected schedule is a violation only if it reproduces twice; HTTP/1.1 disconnects with an unread request body are unobservable by net/http and excluded; signed values unspecified. " + TB),
 
  "C10": dict(engine="Proxy", level="model_checking", design="3.7, 6/C10",
    technique="TLA+ Proxy spec (client, front with in-pump goroutine and out-loop, scripted backend, FIFO channels with half-close) model-checked by TLC for every script incl. liveness/deadlock-freedom, negative configs (no half-close forwarding, first-message wait); every script executed by a real grpc-go client directly and through larking (RegisterConn); validated by TLC against ProxyTrace.tla (TranscriptEquivalence, BackendSaw, RequestMetadata)",
-   text="TLC checks for all 108 scripts that the proxied composition terminates with the transcripts of the direct one; each script is then run for real on every method shape that carries it: the direct transcript must match the model's oracle (else infrastructure error) and the proxied client must see the same replies, status code, message and details, the backend the same messages, one invocation and the client's request metadata (incl. -bin), with hangs detected by a 4 s bound.",
+   text="TLC checks for all 108 scripts that the proxied composition terminates with the transcripts of the direct one; each script is then run for real on every method shape that carries it: the direct transcript must match the model's oracle (else infrastructure error) and the proxied client must see the same replies, status code, message and details, the backend the same messages, one invocation and the client's request metadata (incl. -bin), with hangs detected by a 4 s bound. Every script is also run from an HTTP/JSON client on the front (JudgeHTTP), lock-step bidi scripts model a client that waits for each answer with its send side open (mechanism switch JoinBeforeError as negative config), request metadata includes application keys with a grpc- prefix, failing scripts always include Canceled and DeadlineExceeded.",
    note="Two open known findings (F31, F32: first-message wait) are reported as KNOWN-FINDING lines. Response metadata is outside C10's statement. " + TB),
  "C09": dict(engine="Entry", level="model_checking", design="3.6, 6/C09",
    technique="TLA+ Entry spec (every guard of ServeHTTP / serveGRPCWeb / serveGRPC / serveHTTP as one action; every request answered exactly once, liveness under fairness, response shape a function of the request class) model-checked by TLC with a negative config (gRPC prefix tested before gRPC-web); all 8,160 abstract requests concretised and sent through the real Mux under option subsets and compared with Entry!Resp by TLC (RobustTrace.tla: EntryShape); generated adversarial neighbourhood and WebSocket sessions on real sockets judged by RobustTrace (NoCrash, NoHang, StatusLine, FramesWhole, WsFrames); crash formulas of RouterTrace/RpcTrace on Router_Gen rule sets and out-of-range codes",
@@ -93,7 +93,7 @@ CHECKS = {
 
  "C13": dict(engine="Pool", level="model_checking", design="3.9, 6/C13",
    technique="TLA+ Pool spec (pooled buffers: get/put/retain, NoAliasAfterPut, with negative configs no-copy-on-retain and double put) model-checked by TLC; a race-detector build of the harness runs a seeded concurrent mix of all protocols/shapes/codecs/compression with corrupt and over-limit traffic interleaved plus HttpBody uploads whose chunks handlers retain; every RPC validated by TLC against RpcTrace.tla (per-request view must equal the sequential model) and every retained buffer against PoolTrace.tla (RetainedStable, UploadComplete, ChunkLimit); race reports are violations",
-   text="Each response and each handler-visible message is a function of its own request: the concurrent mix is judged RPC by RPC with the same formulas as the sequential checks (RecvSeq, ReplySeq, StatusFidelity, Metadata...), retained HttpBody chunks are re-digested after the pools have been cycled by the rest of the mix, and the Go race detector watches the whole run.",
+   text="Each response and each handler-visible message is a function of its own request: the concurrent mix is judged RPC by RPC with the same formulas as the sequential checks (RecvSeq, ReplySeq, StatusFidelity, Metadata...), retained HttpBody chunks are re-digested after the pools have been cycled by the rest of the mix, and the Go race detector watches the whole run. The mix also serves handler-owned assets as HttpBody replies repeatedly (downloads) and re-digests them after the mix.",
    note="Data races are monitored on the executions the model drives, not proved absent. " + TB),
 }
 
